@@ -15,7 +15,8 @@ RULE = ("fault enumeration over authentic reference-built reply packets: every s
         "every truncation length through LAN.send on the simulated wire (followed by an honest exchange; every 5th flip also as a packet that is NOT the awaited "
         "reply: queued while the connection idles, or right behind the authentic reply), every single-byte "
         "substitution (all 255 values), every position pair x {01,80,FF}^2 and every 2/4/8/16/32-byte window overwritten with 00/FF/complement at the _Packet.decode seam; the same packets followed by "
-        "further bytes in the segment; every bit flip of the inner packet inside an authentic V3 envelope. "
+        "further bytes in the segment; every bit flip of the inner packet inside an authentic V3 envelope; runs of 40 damaged replies in a row on one "
+        "LAN object; every 5th flip decoded while a discovery is in progress in the same process. "
         "A case is (frame length, fault); all are non-trivial (each changes the packet)")
 ASSUMPTIONS = ["authentic packets are built by the reference codec", "truncation to zero bytes is not a TCP delivery and is excluded"]
 IP, PORT = "10.0.0.9", 6444
@@ -52,6 +53,9 @@ def shards(tier):
         out.append(("tail", n, 0))
     for n in (lengths(tier) if tier == "thorough" else [15, 33]):
         out.append(("v3bits", n, 0))
+    for n in lengths(tier)[:2]:
+        out.append(("streak", n, 0))
+        out.append(("discovering", n, 0))
     return out
 
 
@@ -124,6 +128,55 @@ def wire_unsolicited(corrupt: bytes, good_frame: bytes, mode: str):
     try:
         out = w.run(drive())
         return out[1] if out[0] == "ok" else [(exc_class(out), "")]
+    finally:
+        w.close()
+
+
+def wire_streak(corrupts: list, good_frame: bytes):
+    """ONE LAN object meets a long run of damaged replies (one per exchange), then an honest one."""
+    w = World()
+    good = rc.v2_build(good_frame, 0x1122334455)
+    n = {"i": -1}
+
+    def on_data(conn, data, i):
+        n["i"] += 1
+        conn.deliver(corrupts[n["i"]] if n["i"] < len(corrupts) else good, 0.01)
+
+    w.net.listen(IP, PORT, ScriptPeer(on_data))
+    lan = LAN(IP, PORT, 0x1122334455)
+
+    async def drive():
+        res = []
+        for _ in range(len(corrupts) + 1):
+            try:
+                res.append(("ok", await lan.send(CMD, retries=1)))
+            except BaseException as e:  # noqa: BLE001
+                res.append((type(e).__name__, str(e)[:40]))
+        return res
+
+    try:
+        out = w.run(drive())
+        return out[1] if out[0] == "ok" else [(exc_class(out), "")]
+    finally:
+        w.close()
+
+
+def decode_while_discovering(packets: list):
+    """_Packet.decode of damaged packets while a discovery is in progress in the same process."""
+    import asyncio
+    from msmart.discover import Discover
+    w = World()
+
+    async def drive():
+        task = asyncio.ensure_future(Discover.discover(auto_connect=False, timeout=3))
+        await asyncio.sleep(1.0)
+        res = [direct(p)[0] for p in packets]
+        await task
+        return res
+
+    try:
+        out = w.run(drive())
+        return out[1] if out[0] == "ok" else [exc_class(out)]
     finally:
         w.close()
 
@@ -236,6 +289,37 @@ def run_shard(shard, tier) -> Stats:
                     st.violation(f"bitflip(decode{', after the authentic packet' if primed else ''}) field={field(bit // 8, len(pkt))} -> {d[0]}",
                                  {**case, "primed": primed is not None}, "ProtocolError", d)
             st.ev((kind, n, bit), r1[0], True, sample=None if bit != 333 else {**case, "packet": m.hex()})
+    elif kind == "streak":
+        # repetition bound: the same kind of fault 40 times in a row on one object, then honest service
+        for stride in (7, 11, 13):
+            muts = []
+            for j in range(40):
+                m = bytearray(pkt)
+                bit = (j * stride * 8 + j) % (len(pkt) * 8)
+                m[bit // 8] ^= 1 << (bit % 8)
+                muts.append(bytes(m))
+            res = wire_streak(muts, frame)
+            case = {"kind": kind, "len": n, "stride": stride}
+            for j, r in enumerate(res[:-1]):
+                if r[0] != "ProtocolError":
+                    st.violation(f"streak of damaged replies on one connection object: reply {j + 1 if j < 3 else 'n'} -> {r[0]}", {**case, "index": j},
+                                 "ProtocolError", r)
+                    break
+            if res[-1] != ("ok", [frame]):
+                st.violation(f"exchange after a streak of rejected packets -> {res[-1][0]}", case, ("ok", [frame]), res[-1])
+            st.ev((kind, n, stride), "ProtocolError", True)
+    elif kind == "discovering":
+        muts = []
+        for bit in range(0, len(pkt) * 8, 5):
+            m = bytearray(pkt)
+            m[bit // 8] ^= 1 << (bit % 8)
+            muts.append(bytes(m))
+        res = decode_while_discovering(muts)
+        for j, r in enumerate(res):
+            if r != "ProtocolError":
+                st.violation(f"bitflip decoded while a discovery is running -> {r}", {"kind": kind, "len": n, "index": j}, "ProtocolError", r)
+                break
+            st.ev((kind, n, j), "ProtocolError", True)
     elif kind == "trunc":
         for k in range(1, len(pkt)):
             case = {"kind": kind, "len": n, "keep": k}
@@ -328,6 +412,8 @@ def replay(case):
     frame, pkt = authentic(case["len"])
     m = bytearray(pkt)
     primed = pkt if case.get("primed") else None
+    if case["kind"] in ("streak", "discovering"):
+        return sorted(run_shard((case["kind"], case["len"], 0), "quick").viol_counts)
     if case["kind"] == "tail":
         return {"note": "see run_shard('tail')", "violations": sorted(run_shard(("tail", case["len"], 0), "quick").viol_counts)}
     if case["kind"] == "v3bits":
